@@ -683,14 +683,24 @@ func mergeTouches(old, given []Label) bool {
 	return false
 }
 
-func runCase(c Case) (vkit.Info, error) {
+func runCase(c Case) (vkit.Info, error) { return runHistory(c, 0) }
+
+// runHistory executes a history; with spinners > 0 background goroutines keep calling the
+// cache-level store entry points that real callers use without the cluster lock (race mode
+// "spin", see race_test.go) while the history runs.
+func runHistory(c Case, spinners int) (vkit.Info, error) {
 	var info vkit.Info
 	f, err := newFixture(c)
 	if err != nil {
 		return info, fmt.Errorf("fixture: %v", err)
 	}
-	defer f.cancel()
+	defer func() { f.cancel() }()
 	rc := f.rc
+	stopSpin := func() {}
+	if spinners > 0 {
+		stopSpin = startSpinners(f, uint64(c.Init+len(c.Ops)+1), spinners)
+		defer stopSpin()
+	}
 	m := &model{stores: map[uint64]*mstore{}, nextID: 1, nextReg: 1, residue: map[uint64]bool{}, cached: map[uint64]int{}}
 	info.ClassIf(c.Strict, "strict-labels")
 	knownMerge := vkit.Known(KeyMergeLabels)
@@ -808,6 +818,9 @@ func runCase(c Case) (vkit.Info, error) {
 			f.syncStatus(still...)
 			continue
 		case "restart":
+			if spinners > 0 {
+				continue // the spinners work on the current cluster object
+			}
 			if err := f.restart(); err != nil {
 				return info, fmt.Errorf("%s: harness: %v", at, err)
 			}
@@ -1205,6 +1218,12 @@ func runCase(c Case) (vkit.Info, error) {
 			}
 		}
 		if err := f.compare(m, at); err != nil {
+			return info, err
+		}
+	}
+	if spinners > 0 {
+		stopSpin()
+		if err := f.compare(m, "after the history, spinners joined"); err != nil {
 			return info, err
 		}
 	}
